@@ -60,7 +60,7 @@ const (
 var stageNames = []string{"footer_parsed", "toc_parsed", "tree_built", "file_opened", "bytes_read"}
 
 const (
-	maxVisits   = 600
+	maxVisits   = 300
 	maxDepth    = 24
 	maxChildren = 100
 	maxFiles    = 6
@@ -620,7 +620,7 @@ func (c *caseRun) walkMeta(tag string, mr metadata.Reader, visitCap int) []fileR
 				}
 			}
 			// (no empty name: neither the kernel nor the daemon ever looks up "")
-			for _, n := range []string{".", "..", "no-such", ".wh..wh..opq", estargz.PrefetchLandmark, estargz.NoPrefetchLandmark} {
+			for _, n := range []string{"..", "no-such", ".wh..wh..opq"} {
 				_, _, _ = mr.GetChild(it.id, n)
 			}
 		}
